@@ -1482,7 +1482,7 @@ func (f *Frame) checkAnchors(c *cursor, b *ssa.BasicBlock, idx int, in ssa.Instr
 			f.e.specError("%s: assert at %s: %v", f.e.Key, a.Anchor, err)
 			continue
 		}
-		f.e.addOblig("assert", a.Anchor+": "+a.Clause.Name, a.Clause.Props, f.e.P.position(in.Pos()), c.reach, t)
+		f.e.addOblig("assertion", a.Anchor+": "+a.Clause.Name, a.Clause.Props, f.e.P.position(in.Pos()), c.reach, t)
 	}
 }
 
